@@ -39,6 +39,8 @@ UNIVERSE = [
     ("9007199254740992", "n2p53"), ("9007199254740993", "n2p53+1"), ("9007199254740992.0", "n2p53"), ("18446744073709551614", "nu64-1"),
     ("18446744073709551615", "nu64"), ("-9223372036854775807", "ni64+1"), ("-9223372036854775808", "ni64"), ("9223372036854775807", "ni64max"),
     ("9223372036854775808", "n2p63"),
+    # different strings that an escaping printer without surrogate pairs renders alike (U+1F603 vs U+1F60 followed by "3")
+    ('"\U0001f603"', "sast"), ('"\u1f603"', "sbmp3"), ('{"k":"\U0001f603"}', "oast"), ('{"k":"\u1f603"}', "obmp3"), ('["\U000fffff"]', "aast"), ('["\ufffff"]', "abmpf"),
     # neighbouring doubles: different values, not duplicates
     ("0.3", "n0.3"), ("0.30000000000000004", "n0.3+"), ("0.1", "n0.1"), ("0.10000000000000002", "n0.1+"), ("3.3", "n3.3"),
     ("3.3000000000000003", "n3.3+"), ("0.1e0", "n0.1"), ("30e-2", "n0.3"),
@@ -48,7 +50,13 @@ UNIVERSE = [
 def gen_unit(rng):
     n = rng.choice((0, 1, 2, 3, 5, 8, 13, 21, 40))
     pool = rng.sample(UNIVERSE, rng.choice((2, 3, 5, 8, len(UNIVERSE))))
-    mode = rng.choice(["plain", "plain", "select1", "select2", "wrapped", "computed", "dupname", "sorted", "context"])
+    mode = rng.choice(["plain", "plain", "select1", "select2", "wrapped", "computed", "dupname", "sorted", "context", "filtered"])
+    if mode == "filtered":
+        # a row that a filter rejects is no row: it cannot make a later row a duplicate
+        items = ['{"x":%s,"ok":%s,"z":%d}' % (rng.choice(pool)[0], rng.choice(("true", "false", "null")), rng.randint(0, 9)) for _ in range(n)]
+        args = rng.choice([["--filter", ".ok", "--select", ".x=x"], ["--where", "(= 0 (% .z 2))", "--select", ".x=x", "--select", "(null? .ok)=n"],
+                           ["--select", ".x=x", "--filter", "(not .ok)"], ["--filter", ".ok"]])
+        return {"input": rng.choice(["\n", " "]).join(items).encode("utf-8"), "args": args, "mode": mode}
     if mode == "context":
         # the row also holds something that is not a function of the input value alone (its place in the input, the record it
         # was split from): equal inputs then give different rows, and only equal ROWS are duplicates
@@ -136,8 +144,11 @@ def run_unit(ctx, unit):
     st = ctx.stats
     if unit["mode"] == "dupname":
         return run_dupname(ctx, unit)
-    base = core.Case(unit["args"], unit["input"])
-    uq = core.Case(unit["args"] + ["--unique"], unit["input"])
+    # (rows with characters above U+FFFF are printed raw: the escaped form is the known finding astral-escape and would make
+    # two different strings read back alike)
+    u8 = ["--utf8-strings"] if any(b >= 0xF0 for b in unit["input"]) else []
+    base = core.Case(unit["args"] + u8, unit["input"])
+    uq = core.Case(unit["args"] + u8 + ["--unique"], unit["input"])
     o0, o1 = ctx.drv.run_many([base, uq])
     for c, o in ((base, o0), (uq, o1)):
         if o.result != "ok":
